@@ -159,6 +159,9 @@ void prop(const Case& cs) {
       bool empty_image = img.size() <= 16;
       if (f == fam::F_CM && empty_image && m.size() >= 13 && static_cast<uint64_t>(vf::ref_le32(m.data() + 8)) * m[12] * 8 > (48ull << 20)) { ++excluded_large_config; continue; }
       if ((f == fam::F_VO_I || f == fam::F_VO_S || f == fam::F_VOU || f == fam::F_EBPPS) && img.size() <= 8 && m.size() >= 8 && vf::ref_le32(m.data() + 4) > 65536) { ++excluded_large_config; continue; }  // empty image, k field
+      // VarOpt in warm-up mode (n <= k, preamble longs 3): a larger k leaves the image self-consistent, and a sketch of that k with
+      // resize factor X1 allocates k+1 slots up front exactly as its constructor does
+      if ((f == fam::F_VO_I || f == fam::F_VO_S) && p >= 4 && p <= 7 && (img[0] & 0x3f) == 3 && vf::ref_le32(m.data() + 4) > 65536) { ++excluded_large_config; continue; }
       if (f == fam::F_DENS && empty_image && m.size() >= 12 && vf::ref_le32(m.data() + 8) > 4096) { ++excluded_large_config; continue; }
       faults.push_back(Fault{path, 1, p, v});
     }
